@@ -492,6 +492,10 @@ def curve_table(rep, u):
             probs.append("m=%d does not cover bitlen(p)=%d within its byte length" % (r["m"], p.bit_length()))
         if r["num_size"] != 2 * ((r["m"] + 7) // 8):
             probs.append("num_size != 2*ceil(m/8)")
+        if isinstance(r.get("name_size"), int) and isinstance(nm, str) and r["name_size"] != len(nm):
+            probs.append("name_size=%d but the name has %d characters: ecdsa_curve_str_get_by_name() cannot find the curve by its own name and accepts the name cut short" % (r["name_size"], len(nm)))
+        if isinstance(r.get("OID_size"), int) and isinstance(r.get("OID"), str) and r["OID_size"] != len(r["OID"]):
+            probs.append("OID_size=%d but the OID text has %d characters" % (r["OID_size"], len(r["OID"])))
         if not is_probable_prime(p):
             probs.append("p not prime")
         if not is_probable_prime(n):
